@@ -115,6 +115,12 @@ def run(tier):
             oc = type(ex).__name__
         events.append({"tid": 1, "op": "Construct", "obj": 1, "cls": "harness._Probe", "mode": mode, "outcome": oc})
         events.append({"tid": 1, "op": "Reset", "obj": 0, "cls": "harness._Probe"})
+    # whole-number positions as an integer array (one behaviour per class)
+    nint = 0
+    for i, name in enumerate(reg):
+        e_ = session.integer_positions(name, 900000 + i)
+        nint += bool(e_)
+        events += e_
     tv = core.validate_trace("TraceSession", "TraceSession.cfg", events, "C05")
     if not tv["accepted"]:
         consumed = tv["depth"] - 1
@@ -154,7 +160,7 @@ def run(tier):
            "rule": "behaviours of spec/Session.tla (one object, <=3 operations; 3 containers x request sizes {1,2,3,7} x 4 orders; "
                    "constructor probes ok / unknown parameter / missing value) enumerated exhaustively by TLC and instantiated for every "
                    "public solver class found by introspection; slow classes replay a subset in quick tier; distinct = (class, operation, variant)",
-           "classes": len(reg), "classes_called": len({e["cls"] for e in calls}),
+           "classes": len(reg), "classes_with_integer_request": nint, "classes_called": len({e["cls"] for e in calls}),
            "behaviour_shapes": len(behs), "known_findings_hit": verdict.known, "exhaustive": tier == "thorough"}
     core.write_evidence("C05", tier, "model_checking", cov, time.time() - t0, len(verdict.violations),
                         ["CSV read-back uses Python's csv.reader and float(); 'same as ndarray' compares with a fresh object of the same class"])
